@@ -33,6 +33,80 @@ type machine struct {
 	// why the history says a binding that was granted once is gone (same key): named in the signature when
 	// the registry still holds it
 	ended map[string]string
+	// the local server features written to: regs.W.Servers plus the server feature of the type Generic
+	// (same order as regs.ServerRefs)
+	srvs []regs.LocalServer
+	// noAddr: index of the peer whose discovery data carries no device address (-1: none). The stack knows
+	// its entities and features under addresses without device part.
+	noAddr int
+}
+
+// stripDevice: the discovery data as a device sends it that does not state its device address (an optional
+// element), neither in the device description nor in the entity and feature addresses
+func stripDevice(data *model.NodeManagementDetailedDiscoveryDataType) *model.NodeManagementDetailedDiscoveryDataType {
+	if data.DeviceInformation != nil && data.DeviceInformation.Description != nil {
+		data.DeviceInformation.Description.DeviceAddress = nil
+	}
+	for i := range data.EntityInformation {
+		if d := data.EntityInformation[i].Description; d != nil && d.EntityAddress != nil {
+			d.EntityAddress.Device = nil
+		}
+	}
+	for i := range data.FeatureInformation {
+		if d := data.FeatureInformation[i].Description; d != nil && d.FeatureAddress != nil {
+			d.FeatureAddress.Device = nil
+		}
+	}
+	return data
+}
+
+// discoveryData is the peer's detailed discovery data for ents in the form this peer sends it
+func (m *machine) discoveryData(p *world.Peer, ents []world.EntSpec, change *model.NetworkManagementStateChangeType) *model.NodeManagementDetailedDiscoveryDataType {
+	data := p.DiscoveryData(ents, change)
+	if p.Idx == m.noAddr {
+		stripDevice(data)
+	}
+	return data
+}
+
+// announce: the peer's reply to the stack's discovery read
+func (m *machine) announce(p *world.Peer, ents []world.EntSpec) {
+	if p.Idx != m.noAddr {
+		p.Announce(ents)
+		return
+	}
+	ents = world.WithDeviceInfo(ents)
+	p.Ents = ents
+	cmd := model.CmdType{NodeManagementDetailedDiscoveryData: m.discoveryData(p, ents, nil)}
+	p.Send(p.Msg(model.CmdClassifierTypeReply, p.NM(), world.LocalNM(), false, p.DiscoveryRef, cmd))
+	m.w.Sync()
+	p.Cap.Drain()
+	m.w.Events.Drain()
+}
+
+// clientType: feature type of a client reference of the peers' tree ([0]/0 is node management, role special)
+func clientType(r regs.Ref) model.FeatureTypeType {
+	for _, e := range regs.PeerEntities() {
+		for _, f := range e.Feats {
+			if entKey(e.Addr) == entKey(r.Ent) && f.ID == r.Feat {
+				return f.Type
+			}
+		}
+	}
+	return model.FeatureTypeTypeNodeManagement
+}
+
+// bindType: the server feature type a binding request of client for server si names: the type of the server
+// feature; for the server feature of the type Generic (it stands for any type) the client's own type, and
+// LoadControl (whose limit list that feature offers) when the client is of the type Generic as well
+func (m *machine) bindType(client regs.Ref, si int) model.FeatureTypeType {
+	if st := m.srvs[si].Type; st != model.FeatureTypeTypeGeneric {
+		return st
+	}
+	if ct := clientType(client); ct != model.FeatureTypeTypeGeneric {
+		return ct
+	}
+	return model.FeatureTypeTypeLoadControl
 }
 
 func entKey(ent []uint) string { return fmt.Sprint(ent) }
@@ -119,16 +193,23 @@ func stripFlags(f *gen.Func, u *refmodel.Update) {
 func (m *machine) write(t *rapid.T, pi int, client regs.Ref, si int, f *gen.Func, shape string, ack bool, expect string) {
 	w := m.w
 	p := w.Peers[pi]
-	srv := w.Servers[si].F
+	srv := m.srvs[si].F
 	clientAddr := p.FA(client.Ent, client.Feat)
-	writerAnnounced := p.Dev.FeatureByAddress(clientAddr) != nil
+	// the address the stack knows the writer under (without device part for a peer that never stated its
+	// device address); the datagram carries the peer's own address, as such a device sends it
+	regAddr := clientAddr
+	writerFeature := p.Dev.FeatureByAddress(clientAddr)
+	writerAnnounced := writerFeature != nil
+	if writerAnnounced {
+		regAddr = writerFeature.Address()
+	}
 	ops, okOps := srv.Operations()[f.Fn]
 	writable := okOps && ops.Write()
-	has := w.Local.BindingManager().HasLocalFeatureRemoteBinding(srv.Address(), clientAddr)
+	has := w.Local.BindingManager().HasLocalFeatureRemoteBinding(srv.Address(), regAddr)
 	// cross-check the two views of the registry
 	listed := false
 	for _, b := range w.Local.BindingManager().Bindings(p.Dev) {
-		if reflect.DeepEqual(b.ClientFeature.Address(), clientAddr) && reflect.DeepEqual(b.ServerFeature.Address(), srv.Address()) {
+		if reflect.DeepEqual(b.ClientFeature.Address(), regAddr) && reflect.DeepEqual(b.ServerFeature.Address(), srv.Address()) {
 			listed = true
 		}
 	}
@@ -155,13 +236,13 @@ func (m *machine) write(t *rapid.T, pi int, client regs.Ref, si int, f *gen.Func
 	}
 	w.Events.Drain()
 	cmd := listgen.Cmd(f, u)
-	if !u.HasFilter() && rapid.IntRange(0, 3).Draw(t, "functionElement") == 0 {
+	if !u.HasFilter() && m.srvs[si].ReadOnly != "" && rapid.IntRange(0, 3).Draw(t, "functionElement") == 0 {
 		// the optional function element of a full write names another function of the feature (the
 		// writable one when the read-only one is written and vice versa): what is written is what the
 		// data element says
-		other := w.Servers[si].Writable
+		other := m.srvs[si].Writable
 		if f.Fn == other {
-			other = w.Servers[si].ReadOnly
+			other = m.srvs[si].ReadOnly
 		}
 		cmd.Function = &other
 		world.Label("write/function-element-names-other-function")
@@ -171,7 +252,7 @@ func (m *machine) write(t *rapid.T, pi int, client regs.Ref, si int, f *gen.Func
 	// feature announces as read-only. Whatever the stack makes of further commands, that function's data stays
 	var roFn *gen.Func
 	var roBefore string
-	if ro := w.Servers[si].ReadOnly; f.Fn != ro && rapid.IntRange(0, 4).Draw(t, "secondCmd") == 0 {
+	if ro := m.srvs[si].ReadOnly; ro != "" && f.Fn != ro && rapid.IntRange(0, 4).Draw(t, "secondCmd") == 0 {
 		roFn = gen.ByFunction(ro)
 		roBefore = world.JSON(srv.DataCopy(ro))
 		d.Payload.Cmd = append(d.Payload.Cmd, listgen.Cmd(roFn, refmodel.Update{Items: listgen.Items(t, roFn, 2, gen.Opt{}, "secondCmd.items")}))
@@ -297,29 +378,37 @@ func (m *machine) write(t *rapid.T, pi int, client regs.Ref, si int, f *gen.Func
 
 func (m *machine) randomWrite(t *rapid.T) {
 	pi := m.live(t, "peer")
-	si := rapid.IntRange(0, len(m.w.Servers)-1).Draw(t, "server")
-	client := rapid.SampledFrom(regs.ClientRefs[:7]).Draw(t, "client")
-	fn := m.w.Servers[si].Writable
+	si := rapid.IntRange(0, len(m.srvs)-1).Draw(t, "server")
+	client := rapid.SampledFrom(append(regs.ClientRefs[:7:7], regs.GenericClientRef)).Draw(t, "client")
+	fn := m.srvs[si].Writable
 	switch rapid.IntRange(0, 5).Draw(t, "whichFn") {
 	case 0:
-		fn = m.w.Servers[si].ReadOnly
+		if ro := m.srvs[si].ReadOnly; ro != "" {
+			fn = ro
+		}
 	case 1:
-		fn = m.w.Servers[si].Unannounced // a function of the type the feature never announced
+		fn = m.srvs[si].Unannounced // a function of the type the feature never announced
 	}
 	f := gen.ByFunction(fn)
 	shape := rapid.SampledFrom(listgen.ShapesFor(f)).Draw(t, "shape")
 	m.write(t, pi, client, si, f, shape, rapid.Bool().Draw(t, "ack"), "")
 }
 
-// matching client refs for server si
-func clientsFor(w *regs.W, si int) []regs.Ref {
+// clientsFor: the features of a peer that are granted a binding to server si: client features of the server's
+// type and the client feature of the type Generic (it stands for any type); every client feature and the
+// peer's node management feature (role special, granted like a client) for the Generic server feature.
+func (m *machine) clientsFor(si int) []regs.Ref {
 	var out []regs.Ref
+	st := m.srvs[si].Type
 	for _, e := range regs.PeerEntities() {
 		for _, f := range e.Feats {
-			if f.Type == w.Servers[si].Type && f.Role == model.RoleTypeClient {
+			if f.Role == model.RoleTypeClient && (f.Type == st || f.Type == model.FeatureTypeTypeGeneric || st == model.FeatureTypeTypeGeneric) {
 				out = append(out, regs.Ref{Ent: e.Addr, Feat: f.ID})
 			}
 		}
+	}
+	if st == model.FeatureTypeTypeGeneric {
+		out = append(out, regs.Ref{Ent: []uint{0}, Feat: 0})
 	}
 	return out
 }
@@ -327,11 +416,12 @@ func clientsFor(w *regs.W, si int) []regs.Ref {
 // bind sends a binding request of the peer's client feature for server feature si (device parts present
 // or omitted) and enters a granted binding into the history.
 func (m *machine) bind(t *rapid.T, pi int, client regs.Ref, si int) bool {
-	c := regs.Call{Peer: pi, Client: client, Server: regs.ServerRefs[si], Type: m.w.Servers[si].Type,
+	c := regs.Call{Peer: pi, Client: client, Server: regs.ServerRefs[si], Type: m.bindType(client, si),
 		OmitClientDev: rapid.Bool().Draw(t, "omitC"), OmitServerDev: rapid.Bool().Draw(t, "omitS")}
 	_, ok := m.w.Do(c, world.BindCall(m.w.ClientAddr(c), m.w.ServerAddr(c), c.Type))
 	m.logf("bind %s => %v", c, ok)
 	if ok {
+		world.Label(fmt.Sprintf("bind/granted/client-%s/server-%s", clientType(client), m.srvs[si].Type))
 		m.granted[gkey(pi, client, si)] = true
 		delete(m.ended, gkey(pi, client, si))
 	}
@@ -341,14 +431,14 @@ func (m *machine) bind(t *rapid.T, pi int, client regs.Ref, si int) bool {
 
 func (m *machine) bindThenWrite(t *rapid.T) {
 	pi := m.live(t, "peer")
-	si := rapid.IntRange(0, len(m.w.Servers)-1).Draw(t, "server")
-	cands := clientsFor(m.w, si)
+	si := rapid.IntRange(0, len(m.srvs)-1).Draw(t, "server")
+	cands := m.clientsFor(si)
 	client := cands[rapid.IntRange(0, len(cands)-1).Draw(t, "client")]
 	if m.isGone(pi, client.Ent) {
 		t.Skip("entity removed")
 	}
 	ok := m.bind(t, pi, client, si)
-	f := gen.ByFunction(m.w.Servers[si].Writable)
+	f := gen.ByFunction(m.srvs[si].Writable)
 	expect := ""
 	if ok {
 		expect = "accepted"
@@ -356,9 +446,9 @@ func (m *machine) bindThenWrite(t *rapid.T) {
 	m.write(t, pi, client, si, f, listgen.Full, rapid.Bool().Draw(t, "ack"), expect)
 	if rapid.IntRange(0, 2).Draw(t, "thenOtherFn") == 0 {
 		// the binding does not make functions writable that are read-only or were never announced
-		other := m.w.Servers[si].ReadOnly
-		if rapid.Bool().Draw(t, "unannounced") {
-			other = m.w.Servers[si].Unannounced
+		other := m.srvs[si].ReadOnly
+		if rapid.Bool().Draw(t, "unannounced") || other == "" {
+			other = m.srvs[si].Unannounced
 		}
 		m.write(t, pi, client, si, gen.ByFunction(other), listgen.Full, true, "")
 	}
@@ -377,7 +467,7 @@ func (m *machine) bindings() []entry {
 			continue
 		}
 		for _, b := range m.w.Local.BindingManager().Bindings(p.Dev) {
-			for si, s := range m.w.Servers {
+			for si, s := range m.srvs {
 				if reflect.DeepEqual(s.F.Address(), b.ServerFeature.Address()) {
 					a := b.ClientFeature.Address()
 					var ent []uint
@@ -424,7 +514,7 @@ func (m *machine) unbindThenWrite(t *rapid.T) {
 		world.Label(fmt.Sprintf("unbind/holder/omitC=%v/omitS=%v", c.OmitClientDev, c.OmitServerDev))
 	}
 	m.ops = append(m.ops, fmt.Sprintf("unbind:%s:%v", variant, ok))
-	f := gen.ByFunction(m.w.Servers[b.si].Writable)
+	f := gen.ByFunction(m.srvs[b.si].Writable)
 	m.write(t, b.pi, b.client, b.si, f, listgen.Full, true, expect)
 }
 
@@ -436,12 +526,17 @@ func (m *machine) reconnectThenWrite(t *rapid.T) {
 	b := bs[rapid.IntRange(0, len(bs)-1).Draw(t, "binding")]
 	old := m.w.Peers[b.pi]
 	m.w.Disconnect(old)
-	m.w.Reconnect(old, regs.PeerEntities())
+	if b.pi == m.noAddr {
+		m.announce(m.w.ReconnectOnly(old), regs.PeerEntities())
+		world.Label("reconnect/peer-without-device-address")
+	} else {
+		m.w.Reconnect(old, regs.PeerEntities())
+	}
 	delete(m.gone, b.pi)
 	m.endAll(fmt.Sprintf("%d|", b.pi), "device-gone")
 	m.logf("peer%d disconnected and connected again", b.pi+1)
 	m.ops = append(m.ops, "reconnect")
-	f := gen.ByFunction(m.w.Servers[b.si].Writable)
+	f := gen.ByFunction(m.srvs[b.si].Writable)
 	m.write(t, b.pi, b.client, b.si, f, listgen.Full, true, "rejected")
 }
 
@@ -494,7 +589,7 @@ func (m *machine) entityRemoveThenWrite(t *rapid.T) {
 			}
 			cf := clients[rapid.IntRange(0, len(clients)-1).Draw(t, "bindFirst.client")]
 			var servers []int
-			for si, s := range m.w.Servers {
+			for si, s := range m.srvs {
 				if s.Type == cf.Type {
 					servers = append(servers, si)
 				}
@@ -536,14 +631,14 @@ func (m *machine) entityRemoveThenWrite(t *rapid.T) {
 				stay = append(stay, e)
 			}
 		}
-		m.discoveryNotify(p, p.DiscoveryData(world.WithDeviceInfo(stay), nil), false)
+		m.discoveryNotify(p, m.discoveryData(p, world.WithDeviceInfo(stay), nil), false)
 	default:
 		var bare []world.EntSpec
 		for _, e := range going {
 			e.Feats = nil
 			bare = append(bare, e)
 		}
-		data := p.DiscoveryData(bare, &removed)
+		data := m.discoveryData(p, bare, &removed)
 		if form == "partial+added-entry" {
 			// an entry for an entity that stays and is known (nothing changes by it), anywhere among the others
 			var stay []world.EntSpec
@@ -555,7 +650,7 @@ func (m *machine) entityRemoveThenWrite(t *rapid.T) {
 			if len(stay) > 0 {
 				e := stay[rapid.IntRange(0, len(stay)-1).Draw(t, "addedEntry")]
 				at := rapid.IntRange(0, len(data.EntityInformation)).Draw(t, "addedEntryAt")
-				extra := p.DiscoveryData([]world.EntSpec{e}, &added)
+				extra := m.discoveryData(p, []world.EntSpec{e}, &added)
 				ei := append([]model.NodeManagementDetailedDiscoveryEntityInformationType{}, data.EntityInformation[:at]...)
 				ei = append(ei, extra.EntityInformation...)
 				data.EntityInformation = append(ei, data.EntityInformation[at:]...)
@@ -580,17 +675,17 @@ func (m *machine) entityRemoveThenWrite(t *rapid.T) {
 	world.Label(fmt.Sprintf("entity-removal/%s/entities-%d", form, n))
 	// the writers' entities are gone: the writers are no announced features any more
 	for _, wr := range writers {
-		m.write(t, pi, wr.client, wr.si, gen.ByFunction(m.w.Servers[wr.si].Writable), listgen.Full, true, "rejected")
+		m.write(t, pi, wr.client, wr.si, gen.ByFunction(m.srvs[wr.si].Writable), listgen.Full, true, "rejected")
 	}
 	if rapid.Bool().Draw(t, "readd") {
-		m.discoveryNotify(p, p.DiscoveryData(going, &added), true)
+		m.discoveryNotify(p, m.discoveryData(p, going, &added), true)
 		for _, e := range going {
 			delete(m.gone[pi], entKey(e.Addr))
 		}
 		m.logf("peer%d announces %s added again", pi+1, strings.Join(names, ", "))
 		// the old bindings must not have survived
 		for _, wr := range writers {
-			m.write(t, pi, wr.client, wr.si, gen.ByFunction(m.w.Servers[wr.si].Writable), listgen.Full, true, "rejected")
+			m.write(t, pi, wr.client, wr.si, gen.ByFunction(m.srvs[wr.si].Writable), listgen.Full, true, "rejected")
 		}
 	}
 }
@@ -612,14 +707,14 @@ func (m *machine) rediscovery(t *rapid.T) {
 				there = append(there, e)
 			}
 		}
-		p.Announce(there)
+		m.announce(p, there)
 	} else {
 		i := map[string]int{"added-[1]": 0, "added-[2]": 1, "added-[2 1]": 2}[how]
 		if m.isGone(pi, ents[i].Addr) {
 			t.Skip("the entity is not there")
 		}
 		added := model.NetworkManagementStateChangeTypeAdded
-		data := p.DiscoveryData([]world.EntSpec{ents[i]}, &added)
+		data := m.discoveryData(p, []world.EntSpec{ents[i]}, &added)
 		cmd := model.CmdType{Function: ptr(model.FunctionTypeNodeManagementDetailedDiscoveryData), Filter: []model.FilterType{*model.NewFilterTypePartial()}, NodeManagementDetailedDiscoveryData: data}
 		p.Send(p.Msg(model.CmdClassifierTypeNotify, p.NM(), world.LocalNM(), false, nil, cmd))
 		m.w.Sync()
@@ -629,7 +724,7 @@ func (m *machine) rediscovery(t *rapid.T) {
 	m.ops = append(m.ops, "rediscovery")
 	if bs := m.bindings(); len(bs) > 0 {
 		b := bs[rapid.IntRange(0, len(bs)-1).Draw(t, "binding")]
-		m.write(t, b.pi, b.client, b.si, gen.ByFunction(m.w.Servers[b.si].Writable), listgen.Full, true, "")
+		m.write(t, b.pi, b.client, b.si, gen.ByFunction(m.srvs[b.si].Writable), listgen.Full, true, "")
 	}
 }
 
@@ -658,8 +753,8 @@ func (m *machine) subscribe(t *rapid.T) {
 }
 
 func (m *machine) setData(t *rapid.T) {
-	si := rapid.IntRange(0, len(m.w.Servers)-1).Draw(t, "server")
-	f := gen.ByFunction(m.w.Servers[si].Writable)
+	si := rapid.IntRange(0, len(m.srvs)-1).Draw(t, "server")
+	f := gen.ByFunction(m.srvs[si].Writable)
 	items := listgen.Items(t, f, 3, gen.Opt{}, "items")
 	u := refmodel.Update{Items: items}
 	stripFlags(f, &u)
@@ -669,15 +764,30 @@ func (m *machine) setData(t *rapid.T) {
 			it.FieldByName(f.WriteCheck).Set(reflect.ValueOf(&b))
 		}
 	}
-	m.w.Servers[si].F.SetData(f.Fn, refmodel.Payload(f, items))
+	m.srvs[si].F.SetData(f.Fn, refmodel.Payload(f, items))
 	m.logf("SetData server#%d (%d items)", si, len(items))
 	m.ops = append(m.ops, "setdata")
 }
 
 func TestWriteGate(t *testing.T) {
 	rapid.Check(t, world.Prop(func(t *rapid.T) {
-		m := &machine{w: regs.New(3), accepted: map[int]int{}, rejected: map[int]int{}, gone: map[int]map[string]bool{}, granted: map[string]bool{}, ended: map[string]string{}}
+		// in a third of the cases the last peer is a device that does not state its device address
+		noAddr := -1
+		var w *regs.W
+		if rapid.IntRange(0, 2).Draw(t, "peerWithoutDeviceAddress") == 0 {
+			noAddr = 2
+			w = regs.NewWithUnannounced(3, 1)
+		} else {
+			w = regs.New(3)
+		}
+		m := &machine{w: w, noAddr: noAddr, accepted: map[int]int{}, rejected: map[int]int{}, gone: map[int]map[string]bool{}, granted: map[string]bool{}, ended: map[string]string{}}
 		defer m.w.Teardown()
+		m.srvs = append(append([]regs.LocalServer{}, w.Servers...), regs.LocalServer{F: w.Generic, Type: model.FeatureTypeTypeGeneric,
+			Writable: model.FunctionTypeLoadControlLimitListData, Unannounced: model.FunctionTypeLoadControlLimitDescriptionListData})
+		if noAddr >= 0 {
+			m.announce(w.Peers[noAddr], regs.PeerEntities())
+			world.Label("world/peer-without-device-address")
+		}
 		t.Repeat(map[string]func(*rapid.T){
 			"write":                 m.randomWrite,
 			"write2":                m.randomWrite,
